@@ -5,7 +5,7 @@
    Model: Qs/QsModel.v; source-derived facts: Gen/QsOrders.v (translator/gen_qs.py). *)
 From Coq Require Import List NArith Bool Arith.
 Import ListNotations.
-From FV Require Import Qs.QsTypes Qs.QsModel Qs.QsFgModel Qs.QsGenOk Qs.QsWoProofs Qs.QsWoGen
+From FV Require Import Qs.QsTypes Qs.QsModel Qs.QsFgModel Qs.QsGenOk Qs.QsWoProofs Qs.QsWoLive Qs.QsWoGen
   Qs.QsFgProofs Qs.QsFgThms Qs.QsFgGen.
 Local Open Scope N_scope.
 
@@ -212,6 +212,45 @@ Proof.
   - repeat constructor; cbn; intuition discriminate.
 Qed.
 
+(* Liveness (whole-operation granularity).  A round = a sequence of calls, all returning, in which every
+   agent that is online at its start calls quiescent_state() or offline(), with somebody online at
+   its start; agents may join and leave inside a round.  After k rounds the counter has advanced by
+   at least k as long as it is below a value tg that some barrier desires (tg <= desired): in
+   particular a node registered with target tg is reached after tg - ctr rounds (stronger than the
+   bound 2(tg - ctr) + 1 of the design). *)
+Theorem C11_liveness_wholeop :
+  forall U, NoDup U -> few U -> forall s tr, reach_wo U s tr ->
+  forall ls s' tg, gen_rounds U ls s -> gen_wrun (concat ls) s = Some s' ->
+    tg <= desired (wd s) -> tg <= ctr (wd s) + N.of_nat (length ls) -> tg <= ctr (wd s').
+Proof. intros U ND HB s tr Hr ls s' tg. apply (gen_liveness U ND HB s tr ls s' tg Hr). Qed.
+Print Assumptions C11_liveness_wholeop.
+
+(* ... and once the counter has reached the target of a pending node, the next run() of its owner
+   invokes its callback (no grace period is lost). *)
+Theorem C11_run_fires_wholeop :
+  forall U, NoDup U -> few U -> forall s tr, reach_wo U s tr ->
+  forall t n, In n (pending (wa s t)) -> wtarget s n <= ctr (wd s) ->
+    exists s' evs, gen_w_step t CRun s = Ok (s', evs) /\ In (WCb n t) evs.
+Proof. intros U ND HB s tr Hr t n. apply (gen_run_fires U ND HB s tr t n Hr). Qed.
+Print Assumptions C11_run_fires_wholeop.
+
+(* NOT PROVED (statements kept visible):
+
+   C11_liveness at access granularity: for every fair scheduler every call terminates (the CAS loops of
+   await_barrier / quiescent_barrier retry only when [desired] grew, which is bounded by the target), and
+   the round theorem above for interleaved calls.
+
+   C11_hb (vector clocks, Qs/QsFgModel.v [gen_h_step]):
+     forall U nown scripts sched h tr, NoDup U -> few U -> scripts_ok U nown scripts ->
+       gen_h_run sched (h0 scripts) [] = (h, tr) ->
+       forall t h' evs n t', gen_h_step t h = (h', evs) -> In (WCb n t') evs ->
+       forall X k, hleft h n X = Some k -> (k <= vc (hk h') t X)%nat.
+   i.e. everything an agent did before it entered the quiescent_state()/offline() call that removed it
+   from waiting(n) happens-before the callback.  Evidence instead of a proof: the obligation
+   C11_gen_orders_sufficient, a randomised check of exactly this statement on the vector-clock model
+   (driver mode "hb"; it fails with the memory orders of the source before the D06 and D06b fixes), and
+   the TSan stress leg on the real code. *)
+
 (* ---- non-vacuity (whole-operation) ---- *)
 
 (* two agents; agent 0 defers a period, registers node 0, agent 1 joins while the barrier is pending,
@@ -243,4 +282,38 @@ Proof.
   - apply (run_ops_reach [0]%nat ex_d07 w0 [] s tr stop (rwo_init _)); [|exact E].
     intros t c H. cbn in H. repeat (destruct H as [H|H]; [inversion H; subst; cbn; tauto|]). destruct H.
   - vm_compute in E. inversion E; subst. split; vm_compute; reflexivity.
+Qed.
+
+(* liveness: two agents online, node 0 registered with target 4 while the counter is 2; two rounds
+   (both agents pass a quiescent state) bring the counter to 4 and agent 0's run() invokes the callback *)
+Definition ex_live_ops : list (tid * call) := [(0, COnline); (1, COnline); (0, CAwait 0)]%nat.
+Definition ex_round : list (tid * call) := [(0, CQsCall); (1, CQsCall)]%nat.
+
+Example C11_example_liveness :
+  exists s tr s', reach_wo [0; 1]%nat s tr /\ wtarget s 0%nat = 4 /\ ctr (wd s) = 2 /\
+    gen_rounds [0; 1]%nat [ex_round; ex_round] s /\ gen_wrun (concat [ex_round; ex_round]) s = Some s' /\
+    4 <= ctr (wd s') /\ exists s'' evs, gen_w_step 0%nat CRun s' = Ok (s'', evs) /\ In (WCb 0 0) evs.
+Proof.
+  destruct (gen_w_run_ops ex_live_ops w0 []) as [[s tr] stop] eqn:E.
+  assert (Hr : reach_wo [0; 1]%nat s tr).
+  { apply (run_ops_reach [0; 1]%nat ex_live_ops w0 [] s tr stop (rwo_init _)); [|exact E].
+    intros t c H. cbn in H. repeat (destruct H as [H|H]; [inversion H; subst; cbn; tauto|]). destruct H. }
+  vm_compute in E. inversion E; subst s tr stop. clear E.
+  eexists _, _, _. split; [exact Hr|]. split; [reflexivity|]. split; [reflexivity|].
+  assert (Hq : forall l x, (In (0%nat, CQsCall) l /\ In (1%nat, CQsCall) l) -> (x = 0 \/ x = 1)%nat -> has_qop x l).
+  { intros l x [H0 H1] [->| ->]; exists CQsCall; split; auto. }
+  assert (Hin : forall t c, In (t, c) ex_round -> In t [0; 1]%nat).
+  { intros t c H. cbn in H. repeat (destruct H as [H|H]; [inversion H; subst; cbn; tauto|]). destruct H. }
+  split.
+  - cbn [gen_rounds]. split; [exists 0%nat; reflexivity|]. split.
+    + intros x Hx. apply Hq; [cbn; tauto|]. destruct x as [|[|x]]; [tauto|tauto|]. vm_compute in Hx. discriminate.
+    + split; [exact Hin|].
+      match goal with |- match ?g with _ => _ end => destruct g as [s1|] eqn:E1 end; vm_compute in E1; [|discriminate].
+      inversion E1; subst s1; clear E1.
+      split; [exists 0%nat; reflexivity|]. split.
+      * intros x Hx. apply Hq; [cbn; tauto|]. destruct x as [|[|x]]; [tauto|tauto|]. vm_compute in Hx. discriminate.
+      * split; [exact Hin|].
+        match goal with |- match ?g with _ => _ end => destruct g as [s2|] eqn:E2 end; vm_compute in E2; [exact I|discriminate].
+  - split; [vm_compute; reflexivity|]. split; [vm_compute; discriminate|].
+    eexists _, _. split; [vm_compute; reflexivity|]. cbn. tauto.
 Qed.
